@@ -7,6 +7,7 @@ tied to the code by the differential run of hc03).
 import Wz.Proofs.C03_Leb
 import Wz.Proofs.C03_Frame
 import Wz.Proofs.C03_Validator
+import Wz.Gen.Shapes
 namespace Wz.C03
 open Wz.Model.Leb128 Wz.C03.Leb Wz.Model.Frame
 
@@ -269,5 +270,13 @@ example : ∀ fuel arg st, (invoke m0 fuel 0 [arg] st).1 ≠ .trap "stack" := fu
     fuel 0 [arg] st (by decide) rfl
 open Wz.Model.Validator Wz.Spec.Wasm in
 example : (execSeq {} 5 (erase [.num "i32.add"]) {} {}).1 = .trap "stack" := by decide
+
+
+/-- **Regenerated obligation** (wasm/func_validation.go): an `if` without `else` is accepted only when its block
+type's parameter and result TYPES are equal (the implicit else arm is the identity) - compared as byte strings,
+not by count (a seeded change compared the counts only; the invalid-by-construction stream of hc03 then finds
+`[i32] -> [f64]` accepted). -/
+theorem if_without_else_compares_types :
+    Wz.Gen.Shapes.get "c03.if_without_else" = some "!bytes.Equal(bl.blockType.Results, bl.blockType.Params)" := by decide
 
 end Wz.C03
